@@ -49,7 +49,7 @@ def run(rep, tier):
 
             def spec(O, ents, m, M, sy, mode, kind=kind):
                 if mode == "absent":
-                    O.raise_("ValueError")
+                    O.raise_("ANY-EXC")  # 'raises if it is absent' 
                 out = [e for i, e in enumerate(ents) if i != mode]
                 return {"class": "IntervalTier" if kind == "interval" else "PointTier", "entries": out, "min": m, "max": M}
 
